@@ -44,6 +44,9 @@ class DateTime(Parseable[datetime]):
         try:
             when_str = str(string.value, 'ascii')
             when = datetime.strptime(when_str, '%d-%b-%Y %X %z')
+            if when.strftime('%z') != when_str[-5:]:
+                # strptime also takes Z, +hh:mm and offsets with seconds
+                raise ValueError(when_str)
         except ValueError as exc:
             raise InvalidContent(buf) from exc
         return cls(when, string.value), after
